@@ -47,7 +47,10 @@ type c03Case struct {
 	pairKey     string // from>to whose counters must not move for invalid/direct cases
 	from, to    string
 	toRemote    bool   // request to a service on the remote hub
-	receiptIdx  uint64 // != 0: a receipt relayed from the remote hub for the request with this index
+	receiptIdx  uint64 // != 0: a receipt (relayed from the remote hub, or sent by a local destination chain) for the request with this index
+	localRcpt   bool   // receipt of a local destination chain, verified by that chain's master rule
+	timeout     int64  // timeout value of the request the receipt belongs to (local receipts)
+	stBefore    int    // status of the transaction before the block (local receipts)
 }
 
 func c03Property(t *rapid.T) {
@@ -143,15 +146,49 @@ func c03Property(t *rapid.T) {
 
 	// requests to the remote hub that were accepted, and those among them whose receipt was accepted
 	remoteReq, remoteDone := map[string]uint64{}, map[string]uint64{}
+	// local pairs: destination chain, accepted receipts, timeout value per request
+	localDst, localDone, localT := map[string]string{}, map[string]uint64{}, map[string]int64{}
 	genCase := func() *c03Case {
 		c := &c03Case{}
-		entry := rapid.SampledFrom([]string{"local", "local", "local", "local", "remote", "remote", "direct", "unregistered", "to-remote", "remote-receipt", "remote-receipt"}).Draw(t, "entry")
+		entry := rapid.SampledFrom([]string{"local", "local", "local", "local", "remote", "remote", "direct", "unregistered", "to-remote", "remote-receipt", "remote-receipt", "local-receipt", "local-receipt", "local-receipt"}).Draw(t, "entry")
+		var open []string
+		if entry == "local-receipt" {
+			for pk, n := range nextIdx {
+				if _, isLocal := localDst[pk]; isLocal && n > localDone[pk] {
+					open = append(open, pk)
+				}
+			}
+			sortStrings(open)
+			if len(open) == 0 {
+				entry = "local"
+			}
+		}
 		rsrc := rapid.SampledFrom([]string{"chainH", "chainW"}).Draw(t, "rsrc")
 		rpair := sim.FullID(bxh, rsrc, "s1") + ">" + sim.FullID(sim.RemoteHubID, "chainR", "s1")
 		if entry == "remote-receipt" && remoteReq[rpair] <= remoteDone[rpair] {
 			entry = "to-remote" // nothing outstanding on this pair
 		}
 		switch entry {
+		case "local-receipt":
+			// the destination chain answers an accepted request; the receipt is verified by the destination chain's rule
+			pk := rapid.SampledFrom(open).Draw(t, "rcptPair")
+			parts := strings.SplitN(pk, ">", 2)
+			c.from, c.to, c.pairKey = parts[0], parts[1], pk
+			dst := localDst[pk]
+			rule := ruleOf[dst]
+			idx := localDone[pk] + 1
+			if rapid.IntRange(0, 5).Draw(t, "rcptLatest") == 0 {
+				idx = nextIdx[pk]
+			}
+			proof, hash, valid, class := drawProof(rule)
+			typ := rapid.SampledFrom([]pb.IBTP_Type{pb.IBTP_RECEIPT_SUCCESS, pb.IBTP_RECEIPT_SUCCESS, pb.IBTP_RECEIPT_FAILURE}).Draw(t, "rcptType")
+			ib := &pb.IBTP{From: c.from, To: c.to, Index: idx, Proof: hash, Type: typ}
+			c.tx = w.IBTP(key(dst), ib, proof)
+			c.receiptIdx, c.localRcpt = idx, true
+			c.timeout = localT[fmt.Sprintf("%s#%d", pk, idx)]
+			c.expectValid = valid
+			c.desc = fmt.Sprintf("local receipt %s for %s->%s idx=%d rule(%s)=%s proof=%s", typ, c.from, c.to, idx, dst, rule, class)
+			classesSeen["local-receipt/"+rule+"/"+class] = true
 		case "to-remote":
 			// request of a local service to a service on the remote hub (verified by the source chain's rule)
 			c.from, c.to = sim.FullID(bxh, rsrc, "s1"), sim.FullID(sim.RemoteHubID, "chainR", "s1")
@@ -229,19 +266,25 @@ func c03Property(t *rapid.T) {
 		case "local":
 			src := rapid.SampledFrom([]string{"chainH", "chainW", "chainU", "chainL"}).Draw(t, "src")
 			rule := ruleOf[src]
-			dst := "chainH"
+			dst := rapid.SampledFrom([]string{"chainH", "chainH", "chainW", "chainU"}).Draw(t, "dst")
 			dsvc := "s1"
-			if src == "chainH" {
+			if src == dst {
+				dst = "chainH"
+			}
+			if src == "chainH" && dst == "chainH" {
 				dsvc = "s2"
 			}
 			c.from, c.to = sim.FullID(bxh, src, "s1"), sim.FullID(bxh, dst, dsvc)
 			c.pairKey = c.from + ">" + c.to
+			localDst[c.pairKey] = dst
 			proof, hash, valid, class := drawProof(rule)
 			idx := nextIdx[c.pairKey] + 1
-			ib := &pb.IBTP{From: c.from, To: c.to, Index: idx, TimeoutHeight: 20, Proof: hash, Type: pb.IBTP_INTERCHAIN}
+			c.timeout = rapid.SampledFrom([]int64{0, 0, 20}).Draw(t, "T")
+			localT[fmt.Sprintf("%s#%d", c.pairKey, idx)] = c.timeout
+			ib := &pb.IBTP{From: c.from, To: c.to, Index: idx, TimeoutHeight: c.timeout, Proof: hash, Type: pb.IBTP_INTERCHAIN}
 			c.tx = w.IBTP(key(src), ib, proof)
 			c.expectValid = valid
-			c.mustAccept = valid && src != "chainL" && usable[src] && usable["chainH"]
+			c.mustAccept = valid && src != "chainL" && usable[src] && usable[dst]
 			c.desc = fmt.Sprintf("IBTP request %s->%s idx=%d rule=%s proof=%s", c.from, c.to, idx, rule, class)
 			classesSeen["local/"+rule+"/"+class] = true
 		case "remote":
@@ -387,6 +430,12 @@ func c03Property(t *rapid.T) {
 			if ic := w.Interchain(c.from); ic != nil {
 				countersBefore[c.pairKey] = [2]uint64{ic.InterchainCounter[c.to], ic.ReceiptCounter[c.to]}
 			}
+			if c.localRcpt {
+				c.stBefore, _ = w.Status(sim.IBTPID(c.from, c.to, c.receiptIdx))
+				src := strings.Split(c.from, ":")[1]
+				c.mustAccept = c.expectValid && c.stBefore == stBEGIN && c.timeout == 0 && c.receiptIdx == localDone[c.pairKey]+1 &&
+					usable[src] && usable[localDst[c.pairKey]]
+			}
 		}
 		h := w.N.Height()
 		if _, err := w.N.ExecBlock(b.event(h + 1)); err != nil {
@@ -436,7 +485,12 @@ func c03Property(t *rapid.T) {
 						}
 					}
 				}
-				if c.receiptIdx != 0 {
+				if c.localRcpt {
+					st, _ := w.Status(sim.IBTPID(c.from, c.to, c.receiptIdx))
+					if st != c.stBefore && !(c.timeout != 0 && c.stBefore == stBEGIN && st == stBEGINROLLBACK) {
+						f.fail("%s changed the status of the transaction from %s to %s", c.desc, stName[c.stBefore], stName[st])
+					}
+				} else if c.receiptIdx != 0 {
 					if st, _ := w.Status(sim.IBTPID(c.from, c.to, c.receiptIdx)); st != stBEGIN {
 						f.fail("%s changed the status of the transaction to %s", c.desc, stName[st])
 					}
@@ -445,7 +499,13 @@ func c03Property(t *rapid.T) {
 				}
 			} else {
 				allInvalid = false
-				if rs[i].IsSuccess() && c.receiptIdx != 0 {
+				if rs[i].IsSuccess() && c.localRcpt {
+					if c.receiptIdx != localDone[c.pairKey]+1 {
+						f.fail("%s was accepted although receipt %d of the pair is outstanding", c.desc, localDone[c.pairKey]+1)
+					}
+					localDone[c.pairKey] = c.receiptIdx
+					classesSeen["local-receipt-accepted"] = true
+				} else if rs[i].IsSuccess() && c.receiptIdx != 0 {
 					remoteDone[c.pairKey] = c.receiptIdx
 					classesSeen["remote-receipt-accepted"] = true
 				} else if rs[i].IsSuccess() {
